@@ -162,9 +162,9 @@ def audit(pid, thorough=False):
     # parse: "'X' depends on axioms: [a, b]" or "'X' does not depend on any axioms"
     text = out.replace("\n  ", " ").replace("\n ", " ")
     found = {}
-    for m in re.finditer(r"'([^']+)' depends on axioms: \[([^\]]*)\]", text):
+    for m in re.finditer(r"'(\S+)' depends on axioms: \[([^\]]*)\]", text):
         found[m.group(1)] = {a.strip() for a in m.group(2).split(",") if a.strip()}
-    for m in re.finditer(r"'([^']+)' does not depend on any axioms", text):
+    for m in re.finditer(r"'(\S+)' does not depend on any axioms", text):
         found[m.group(1)] = set()
     for n in names:
         if n not in found:
